@@ -1,11 +1,16 @@
 #!/bin/sh
-# seedloop.sh <outfile>: process every complete /tmp/seedout/<ID>-<n>/ not yet in /verif/seeded
-out=${1:-/tmp/seedloop.log}
-for d in /tmp/seedout/C*-*/; do
+# seedloop.sh [workers]: confirm every complete /tmp/seedout/<ID>-<n>/ not yet in /verif/seeded and
+# run the property's check against it (tools/seedtest.py), several at a time. One log per seed
+# in /tmp/seedlogs/. A lock directory per seed makes concurrent invocations safe.
+workers=${1:-3}
+mkdir -p /tmp/seedlogs /tmp/seedlock
+ls -d /tmp/seedout/C*-*/ 2>/dev/null | while read d; do
   n=$(basename "$d")
   [ -f "$d/patch.diff" ] && [ -f "$d/meta.json" ] || continue
   [ -d "/verif/seeded/$n" ] && continue
+  echo "$n"
+done | xargs -P "$workers" -I{} sh -c '
+  n={}; mkdir /tmp/seedlock/$n 2>/dev/null || exit 0
   id=${n%%-*}
-  echo "=== $n" >> "$out"
-  python3 /verif/tools/seedtest.py "$d" "$id" --keep-as "$n" >> "$out" 2>&1
-done
+  python3 /verif/tools/seedtest.py /tmp/seedout/$n $id --keep-as $n > /tmp/seedlogs/$n.log 2>&1
+'
